@@ -833,7 +833,8 @@ fn random_program(r: &mut Rng) -> Vec<Op> {
         } else if c < 26 && depth > 0 {
             ops.push(Op::End);
             depth -= 1;
-            reads_for(&pool, use_font, r, &mut ops, r.chance(2, 3));
+            let all = r.chance(2, 3);
+            reads_for(&pool, use_font, r, &mut ops, all);
         } else if c < 27 && depth == 0 && r.chance(1, 40) {
             ops.push(Op::End); // stray `}`: fatal error, the rest is not run
         } else if c < 60 {
